@@ -139,6 +139,10 @@ func (w *c13World) observe(k string, t int) (got, want string, pan string) {
 		out, err, p := sut.OutputRoot(root, gtree.WithEncodeJSON())
 		f, derr := decode("json", out)
 		return fmt.Sprintf("%s err=%v derr=%v", model.Key(f), err, derr), fmt.Sprintf("%s err=<nil> derr=<nil>", model.Key(model.Forest{m})), p
+	case "Y":
+		out, err, p := sut.OutputRoot(root, gtree.WithEncodeYAML())
+		f, derr := decode("yaml", out)
+		return fmt.Sprintf("%s err=%v derr=%v", model.Key(f), err, derr), fmt.Sprintf("%s err=<nil> derr=<nil>", model.Key(model.Forest{m})), p
 	case "D":
 		var buf bytes.Buffer
 		var err error
@@ -258,14 +262,14 @@ func c13Run(c *rep.Ctx, hist []hop) {
 
 func init() {
 	props["C13"] = func(c *rep.Ctx) {
-		maxL := 7
+		maxL := 6
 		if c.Thorough() {
-			maxL = 8
+			maxL = 7
 		}
 		const maxNodes = 4
 		c.Bound("history_length", fmt.Sprint(maxL))
 		c.Bound("nodes_per_tree", fmt.Sprint(maxNodes))
-		obs := []string{"T", "W", "J", "D", "F", "K", "P"}
+		obs := []string{"T", "W", "J", "Y", "D", "F", "K", "P"}
 		addNames := []string{"a", "b", "x/y"} // "x/y" is a legal node name for output and walk, invalid for mkdir/verify
 		// kids[t][node][name] tracks which Adds create nodes, so node indices are exact
 		type st struct {
@@ -355,8 +359,11 @@ func init() {
 					}
 				}
 				// operations in the middle of a history (they reset library-internal state)
-				for _, k := range []string{"T", "W", "D", "V", "F"} {
+				for _, k := range []string{"T", "W", "D", "V", "F", "J"} {
 					rec(append(hist, hop{K: k, T: t}), s, L)
+				}
+				if len(hist) <= 3 {
+					rec(append(hist, hop{K: "Y", T: t}), s, L)
 				}
 				if len(hist) <= 2 {
 					rec(append(hist, hop{K: "P", T: t}), s, L)
